@@ -61,14 +61,14 @@ def install(eng):
         eng.do_throw(st, a[0], nm, a[2])
     @model('__cxa_begin_catch')
     def m_bc(st, a):
-        st.caught.append(st.exc); return a[0]
+        st.caught.append(st.exc); st.env['uncaught'] = max(0, st.env.get('uncaught', 0) - 1); return a[0]
     @model('__cxa_end_catch')
     def m_ec(st, a):
         if st.caught: st.caught.pop()
     @model('__cxa_rethrow')
     def m_rethrow(st, a):
         if not st.caught: raise Bug('terminate', '__cxa_rethrow with no active exception', eng._m(st))
-        st.exc = st.caught[-1]; raise E.Throw()
+        st.exc = st.caught[-1]; st.env['uncaught'] = st.env.get('uncaught', 0) + 1; raise E.Throw()
     @model('__cxa_get_exception_ptr')
     def m_gep(st, a): return a[0]
     @model('_ZSt9terminatev', '__clang_call_terminate')
@@ -299,6 +299,9 @@ def install(eng):
         lo, hi = eng.concretize(st, a[0], 'range lo'), eng.concretize(st, a[1], 'range hi')
         bits = 32 if lo < (1 << 32) and hi < (1 << 32) and eng._cur_callee.endswith('u32') else 64
         v = st.new_input(nm(st, a[2]), bits)
+        if v.__class__ is int:          # concrete mode
+            if not (lo <= v <= hi): raise E.Inconclusive('harness', 'recorded input outside its declared range')
+            return v
         st.var_ranges = dict(st.var_ranges); st.var_ranges[v.get_id()] = (lo, hi)      # declared range, also used by the integer encodings
         st.pc.append(z3.And(z3.UGE(v, lo), z3.ULE(v, hi)))
         return v
